@@ -44,7 +44,14 @@ type World struct {
 }
 
 func interpretablePkg(path string) bool {
-	return path == plushPath || strings.HasPrefix(path, plushPath+"/") || path == harnessPath || strings.HasPrefix(path, harnessPath+"/") || path == "errors"
+	return path == plushPath || strings.HasPrefix(path, plushPath+"/") || path == harnessPath || strings.HasPrefix(path, harnessPath+"/") || path == "errors" || lazyPkg(path)
+}
+
+// lazyPkg: dependencies of plush that are executed from their SSA like plush itself, but whose
+// (large) package initialisation runs only on the paths that call into them: gobuffalo/flect
+// (inflection tables) behind pathFor and the inflection helpers.
+func lazyPkg(path string) bool {
+	return path == "github.com/gobuffalo/flect" || strings.HasPrefix(path, "github.com/gobuffalo/flect/")
 }
 
 var interpretableFns = map[string]bool{
@@ -130,6 +137,10 @@ type Exec struct {
 	st  *Stats
 	q   *Queue
 
+	// lazily initialised packages (lazyPkg), per path
+	lazyDone    map[*ssa.Package]bool
+	lazyRunning bool
+
 	// per path
 	prefix        []uint16
 	nd            int
@@ -201,6 +212,8 @@ func (ex *Exec) resetPath(prefix []uint16) {
 	ex.opaqueN = 0
 	ex.viol = nil
 	ex.depth = 0
+	ex.lazyDone = nil
+	ex.lazyRunning = false
 }
 
 // initGlobals zeroes every global of the interpretable packages and runs their
@@ -646,6 +659,22 @@ func (ex *Exec) call(fn *ssa.Function, args []Val, env []Val) (ret Val) {
 	}
 	if fn.Name() == "init" && fn.Pkg != nil && !interpretablePkg(fn.Pkg.Pkg.Path()) {
 		return nil
+	}
+	if fn.Pkg != nil && lazyPkg(fn.Pkg.Pkg.Path()) {
+		if fn.Name() == "init" {
+			if !ex.lazyRunning {
+				return nil // deferred to the first call into the package on this path
+			}
+		} else if !ex.lazyDone[fn.Pkg] && !strings.HasPrefix(fn.Name(), "init#") {
+			if ex.lazyDone == nil {
+				ex.lazyDone = map[*ssa.Package]bool{}
+			}
+			ex.lazyDone[fn.Pkg] = true
+			was := ex.lazyRunning
+			ex.lazyRunning = true
+			ex.call(fn.Pkg.Func("init"), nil, nil)
+			ex.lazyRunning = was
+		}
 	}
 	if fn.Pkg != nil && fn.Pkg.Pkg.Path() == "errors" && fn.Name() == "init" {
 		return nil
